@@ -2491,3 +2491,12 @@ mod tests {
         assert_eq!(boundary, Some(value + GROUP_DATA_CTR_EPOCH));
     }
 }
+
+// Verification hook. Inert unless built by the Kani compiler (`cargo kani`, `cargo kani playback`):
+// the harness text lives outside this repository, in `$RS_MATTER_VERIF_DIR`.
+#[cfg(kani)]
+mod verif_kani {
+    #[allow(unused_imports)]
+    use super::*;
+    include!(concat!(env!("RS_MATTER_VERIF_DIR"), "/transport__session.rs"));
+}
